@@ -9,6 +9,8 @@ Import ListNotations.
 Open Scope N_scope.
 
 Definition SPC : N := 32.
+Fixpoint list_eqb_N (a b : list N) : bool :=
+  match a, b with [], [] => true | x :: a', y :: b' => (x =? y) && list_eqb_N a' b' | _, _ => false end.
 (** [' '.join(parts)] *)
 Definition join_sp (l : list (list N)) : list N :=
   match l with [] => [] | x :: r => x ++ flat_map (fun y => SPC :: y) r end.
@@ -61,6 +63,34 @@ Definition parse_color (is_ws : N -> bool) (s : list N) : option (Z * Z * Z * Z)
   | Some [r; g; b; a] => Some (r, g, b, a)
   | _ => None
   end.
+
+(** BINARY: [byt.hex(' ', 1).upper()] / [bytes.fromhex(text)] (ASCII whitespace is skipped between bytes, never inside one) *)
+Definition hexd (n : N) : N := if n <? 10 then 48 + n else 55 + n.
+Definition hex_byte (b : N) : list N := [hexd (b / 16); hexd (b mod 16)].
+Definition hex_text (bs : list N) : list N := join_sp (map hex_byte bs).
+Definition hex_val (c : N) : option N :=
+  if (48 <=? c) && (c <=? 57) then Some (c - 48)
+  else if (65 <=? c) && (c <=? 70) then Some (c - 55)
+  else if (97 <=? c) && (c <=? 102) then Some (c - 87)
+  else None.
+Fixpoint parse_hex (is_ws : N -> bool) (s : list N) : option (list N) :=
+  match s with
+  | [] => Some []
+  | c :: r =>
+      if is_ws c then parse_hex is_ws r
+      else match r with
+           | d :: r' => match hex_val c, hex_val d, parse_hex is_ws r' with
+                        | Some h, Some l, Some bs => Some ((h * 16 + l) :: bs)
+                        | _, _, _ => None
+                        end
+           | [] => None
+           end
+  end.
+Definition hex_char (c : N) : bool := ((48 <=? c) && (c <=? 57)) || ((65 <=? c) && (c <=? 70)).
+
+Definition ascii_space (c : N) : bool := existsb (N.eqb c) [9; 10; 11; 12; 13; 32].
+(** [byt.hex(sep, n).upper()]: separator, bytes per group, upper-cased *)
+Definition hex_text_ok (sep : list N) (group : N) (upper : bool) : bool := list_eqb_N sep [SPC] && (group =? 1) && upper.
 
 (** the decisive constants of [_fmt_float]: six places, trailing zeros and a bare point stripped, no [x + 0.0] *)
 Definition float_text_cfg_ok (c : fmt_cfg) : bool := cfg_base_ok c && negb (adds_zero c) && negb (neg_zero_fix c).
